@@ -531,8 +531,13 @@ class SlotNode(BaseNode):
         # ```
         #
         # Hence, even in the "django" mode, we MUST use slots of the context of the parent component.
+        #
+        # NOTE: This applies only to the fill content, which was written in the parent's template.
+        # The slot's own default content belongs to this component, so any slots nested in it
+        # must keep resolving against this component's fills.
         if (
             component_ctx.registry.settings.context_behavior == ContextBehavior.DJANGO
+            and slot_fill.is_filled
             and component_ctx.outer_context is not None
             and _COMPONENT_CONTEXT_KEY in component_ctx.outer_context
         ):
